@@ -112,6 +112,8 @@ class Spec:
             r[op[1]] = src[a - 1:b]; return ("=", r[op[1]])
         if k == "T":
             r[op[1]] = s_char(op[2]); return ("=", r[op[1]])
+        if k == "M":
+            r[op[1]] = []; return ("=", [])      # the empty Text, as an allocated {"\\0", 1}
         if k == "R":
             t = r[op[1]]
             if not (1 <= op[3] <= len(t)) or not tchar(op[2]):
@@ -160,7 +162,7 @@ def describe(h):
         elif k == "L":
             words.append("lit(%s)" % ",".join(str(clen(c)) for c in op[2]))
         else:
-            w = {"C": "copy", "K": "concat", "S": "concat-char", "P": "char-concat", "X": "slice", "T": "char-to-text",
+            w = {"M": "empty-owned", "C": "copy", "K": "concat", "S": "concat-char", "P": "char-concat", "X": "slice", "T": "char-to-text",
                  "I": "index", "N": "length", "Q": "equal", "F": "iterate", "W": "print"}[k]
             ch = {"S": 3, "P": 2, "T": 2}.get(k)
             if ch is not None and not tchar(op[ch]):
@@ -278,6 +280,19 @@ def exhaustive_histories():
             hs.append(base + [("S", 1, 0, c), ("W", 1), ("N", 1), ("F", 1)])
             hs.append(base + [("P", 1, c, 0), ("W", 1), ("N", 1), ("F", 1)])
             hs.append([("T", 0, c), ("N", 0), ("W", 0), ("I", 0, 1), ("F", 0)])
+    for t in texts:
+        for pre in ([("M", 0), ("L", 1, t)], [("M", 0), ("M", 1), ("S", 1, 1, 0)] if not t else [("M", 0), ("C", 1, 0), ("K", 1, 1, 0), ("L", 1, t)]):
+            hs.append(pre + [("Q", 0, 1), ("Q", 1, 0), ("K", 2, 0, 1), ("K", 3, 1, 0), ("Q", 2, 3), ("W", 2), ("N", 2), ("F", 2)])
+    own = [("M", 0)]
+    hs.append(own + [("N", 0), ("F", 0), ("W", 0), ("C", 1, 0), ("Q", 0, 1), ("Q", 1, 0), ("Q", 0, 0), ("L", 2, []), ("Q", 0, 2), ("Q", 2, 0), ("C", 3, 2), ("Q", 0, 3), ("Q", 3, 0)])
+    for i in range(-1, 3):
+        hs.append(own + [("I", 0, i)])
+        hs.append(own + [("R", 0, 0x61, i)])
+        for j in range(-1, 3):
+            hs.append(own + [("X", 1, 0, i, j), ("N", 1), ("L", 2, []), ("Q", 1, 2), ("Q", 2, 1)])
+    for c in ALPHA + UNSTORABLE:
+        hs.append(own + [("S", 1, 0, c), ("W", 1), ("N", 1), ("L", 2, s_char(c)), ("Q", 1, 2), ("Q", 2, 1)])
+        hs.append(own + [("P", 1, c, 0), ("W", 1), ("N", 1), ("L", 2, s_char(c)), ("Q", 1, 2), ("Q", 2, 1)])
     for a in texts:
         for b in texts:
             hs.append([("L", 0, a), ("L", 1, b), ("K", 2, 0, 1), ("N", 2), ("W", 2), ("Q", 0, 1), ("Q", 1, 0)])
@@ -314,7 +329,9 @@ def rand_history(rng, maxlen=12):
             a = rng.choice(live)
         la = len(s.r[a])
         x = rng.random()
-        if x < 0.16 or not live:
+        if x < 0.03:
+            op = ("M", r)
+        elif x < 0.16 or not live:
             op = ("L", r, rand_text(rng))
         elif x < 0.22:
             op = ("C", r, a)
@@ -363,7 +380,7 @@ def ddp_text(cs):
 def ddp_program(h):
     """DDP source performing the history and printing every observation on its own line; None when the
     history uses something the translator does not render"""
-    L = ['Binde "Duden/Ausgabe" ein.', ""]
+    L = ['Binde "Duden/Ausgabe" ein.'] + (['Binde "Duden/Umgebungsvariablen" ein.'] if any(op[0] == "M" for op in h) else []) + [""]
     for k in range(NREG):
         L.append('Der Text r%d ist "".' % k)
     L.append("Die Zahl zaehler ist 0.")
@@ -374,6 +391,9 @@ def ddp_program(h):
             if t is None:
                 return None
             L.append("Speichere %s in r%d." % (t, op[1]))
+        elif k == "M":
+            # Hole_Umgebungsvariable of a variable that is set to the empty string (run_limited sets it)
+            L.append('Speichere (der Wert der Umgebungsvariable "C12_LEER") in r%d.' % op[1])
         elif k == "C":
             L.append("Speichere r%d in r%d." % (op[2], op[1]))
         elif k == "K":
@@ -440,7 +460,7 @@ def ddp_expected(h):
 
 def run_limited(exe, timeout=8, limit=1 << 16):
     """run a program, keep at most `limit` bytes of stdout (a looping program prints without end)"""
-    p = subprocess.Popen(["timeout", "-k", "1", str(timeout), exe], stdout=subprocess.PIPE, stderr=subprocess.DEVNULL)
+    p = subprocess.Popen(["timeout", "-k", "1", str(timeout), exe], stdout=subprocess.PIPE, stderr=subprocess.DEVNULL, env=dict(os.environ, C12_LEER=""))
     data = b""
     try:
         while len(data) < limit:
@@ -457,6 +477,9 @@ def run_limited(exe, timeout=8, limit=1 << 16):
 
 
 FIXED_PROGRAMS = [
+    # the empty Text that owns a buffer (value of an empty environment variable) against the literal ""
+    [("M", 0), ("N", 0), ("L", 1, []), ("Q", 1, 0), ("Q", 0, 1), ("C", 2, 0), ("Q", 2, 1), ("K", 3, 0, 1), ("Q", 3, 0), ("F", 0), ("W", 0),
+     ("S", 3, 0, 0xE4), ("W", 3), ("X", 2, 0, 1, 3), ("Q", 2, 0), ("I", 0, 1)],
     # text loops, comparisons and conversions over 1..4-byte characters
     [("L", 0, [0x48, 0xE4, 0x20AC, 0x1F600]), ("F", 0), ("N", 0), ("I", 0, 4), ("I", 0, 2), ("W", 0),
      ("X", 1, 0, 2, 3), ("W", 1), ("K", 2, 1, 0), ("F", 2), ("Q", 2, 0), ("C", 3, 2), ("Q", 3, 2), ("I", 0, 5)],
@@ -477,6 +500,7 @@ def main():
         "glibc c32rtomb/mbrtoc32 under the C.utf8 locale (link-time setlocale shim) = section variables enc/dec of Rt/Str.v; the concrete instance glibc_enc/glibc_dec of Rt/StrSpec.v is compared with libc on every ddpchar value -2..0x110010 and every lead+continuation sequence on every run",
         "harness/c/rtdrive.c: operands of the consuming concatenations are deep-copied first (as the compiler does for variables); Laufzeitfehler intercepted with --wrap=ddp_runtime_error; the text loop of compiler.go is transcribed around the real utf8_string_to_char (the compiled-program leg runs the real loop)",
         "Python reference on lists of code points (str/list slicing, UTF-8 by Python's codec) = the property's specification oracle; its decoder is cross-checked against the Coq definition cps on every model state",
+        "the empty Text has two representations, {NULL,0} (literals, every runtime operation) and the allocated {\"\\0\",1} that C producers of the stdlib return (env.c, string_builder.c, filesystem.c, strings.c ...): repr/wf admit both, rtdrive op M constructs the second one, compiled programs obtain it from an empty environment variable",
         "blocks are lists of bytes, NULL = empty block, realloc/alloc contents = -1 until written (never observed), memcmp/memcpy out of block = OOB regardless of early exit",
     ]
     ok_coq = ck.coq()
@@ -888,8 +912,8 @@ def main():
     ck.assumptions = ["the alphabet of texts is every Unicode scalar value except U+0000, which a NUL-terminated Text cannot hold (C12_nul_not_representable); "
                       "U+0000 and non-scalar ddpchar values convert to the empty Text, append nothing, and cannot be stored (Laufzeitfehler)"]
     ck.finish("theorems: full for literal/copy/length/index/slice/concat/char concat/char-to-text/replace/equality/iteration/print/casts/codec and for "
-              "all histories over texts and every ddpchar value (C12_wf_preserved_all_chars); limitation C12_nul_not_representable; "
-              "C12_old_replace_shorter_refuted documents the repaired defect on the old definition")
+              "all histories over texts and every ddpchar value (C12_wf_preserved_all_chars), on both representations of the empty Text (C12_two_empty_texts: equal in both operand orders); limitation C12_nul_not_representable; "
+              "C12_old_replace_shorter_refuted and the string_equal_old clauses of C12_two_empty_texts document the repaired defects on the old definitions")
 
 
 if __name__ == "__main__":
